@@ -176,7 +176,42 @@ def _check_sample_case(rows1, rows2, conv, tol):
     return fails
 
 
+UNUSUAL = {"x": "", "y": " ", "z": "0", "w": "a b"}      # legal column names: empty, blank, digit, with a space
+
+
+def _names_case(rows1, rows2):
+    """the same samples under unusual column names, read through the public accessors"""
+    ren = lambda rows: [{UNUSUAL[k]: v for k, v in r.items()} for r in rows]
+    cols = [UNUSUAL[c] for c in G.COLS]
+    a = G.real_aggregates(ren(rows1), cols, self_cov=False)
+    b = G.real_aggregates(ren(rows2), cols, self_cov=False)
+    c = G.real_aggregates(ren(rows1 + rows2), cols, self_cov=False)
+    s = a + b
+    fails = []
+    for k in cols:
+        if s.mean(k) != c.mean_[k] or s.var(k) != c.var_[k]:
+            fails.append((f"column named {k!r}: mean / var of a + b through the accessors", f"{s.mean(k)}, {s.var(k)} != {c.mean_[k]}, {c.var_[k]}"))
+    for (p, q), v in c.cov_.items():
+        if s.cov(p, q) != v or s.cov(q, p) != v:
+            fails.append((f"columns named {p!r}, {q!r}: cov of a + b through the accessors", f"{s.cov(p, q)} != {v}"))
+    for x, y in (("", " "), ("0", ""), (" ", None), (None, "")):
+        lin = _lin(ren(rows1), x, y)
+        if a.ratio_var(x, y) != G.cov(lin, lin):
+            fails.append((f"ratio_var({x!r}, {y!r}) != var of linearised", ""))
+    return fails
+
+
 def oracle(ctx, deep=False):
+    for i in range(ctx.n(20, 300)):
+        rows1, _ = _sample_agg(ctx.rng)
+        rows2, _ = _sample_agg(ctx.rng)
+        ctx.evaluations += 1
+        ctx.count("oracle:unusual-names")
+        fails = _names_case(rows1, rows2)
+        if fails:
+            ctx.violations.append({"what": fails[0][0], "detail": fails[0][1], "all": [f[0] for f in fails][:10],
+                                   "input": {"rows1": G.rows_json(rows1), "rows2": G.rows_json(rows2), "mode": "names"}})
+            break
     n = ctx.n(150, 3000) * (3 if deep else 1)
     for i in range(n):
         rows1, _ = _sample_agg(ctx.rng)
@@ -227,7 +262,9 @@ def replay(ctx, rp):
                or any(l.cov_[p] != r.cov_[p] for p in l.cov_))
         return {"fails": bad, "what": "associativity"}
     rows1, rows2 = G.rows_from_json(inp["rows1"]), G.rows_from_json(inp["rows2"])
-    if inp["mode"] == "float":
+    if inp["mode"] == "names":
+        fails = _names_case(rows1, rows2)
+    elif inp["mode"] == "float":
         fails = _check_sample_case(rows1, rows2, float, 1e-6)
     else:
         fails = _check_sample_case(rows1, rows2, lambda x: x, 0)
